@@ -161,6 +161,44 @@ def rule_commit_components(S, res):
                         key="R2.1c|%s|component-%d" % (l, f))
 
 
+def rule_replicated_draw(S, res):
+    """R4.c: a vector of random coefficients / secret bits is never built by drawing once and
+    replicating the value (`vec![rng.random(); n]`, `repeat(x)`): all entries would be equal, a check
+    with such coefficients only constrains the XOR of all rows."""
+    fg = S.fg
+    n = 0
+    bad = 0
+    DRAW = ("fill_bytes", "random", "next_u64", "next_u32", "random_range", "random_bool", "sample", "gen", "random_bits")
+    for bk, b in fg.bodies.items():
+        if b.krate != "polytune" or "bench" in b.owner or "::fpre::" in b.owner:
+            continue
+        for bi, t in b.calls():
+            cn = callee_names(t)
+            if not cn or bi not in b.live_blocks():
+                continue
+            tl = cn[-1].rsplit("::", 1)[-1]
+            if not (cn[-1].endswith("vec::from_elem") or tl in ("repeat", "repeat_n", "resize")):
+                continue
+            el = t["args"][1] if tl == "resize" and len(t["args"]) > 2 else t["args"][0]
+            if tl == "resize":
+                el = t["args"][2] if len(t["args"]) > 2 else None
+            if el is None or el["k"] == "const":
+                continue
+            n += 1
+            back = fg.backward(fg.operand_nodes(bk, el), node_ok=lambda x: x[0] == bk, edge_ok=lambda e: e.kind in ("copy", "cast", "ref", "agg", "field2whole", "base2field", "un", "bin"))
+            bl = {x[1] for x in back}
+            for cbi, ct in b.calls():
+                ccn = callee_names(ct)
+                if ct["d"]["l"] in bl and ccn and (ccn[0] in ("rand::random",) or (ccn[0].rsplit("::", 1)[-1] in DRAW and ("rand" in ccn[0] or "Rng" in ccn[0]))):
+                    bad += 1
+                    res.bad("R4.c", "%s|%s" % (b.owner.rsplit("::", 1)[-1], tl), "one random draw is replicated into every entry of a vector (`vec![draw; n]`): the entries are all equal, so e.g. a consistency check with these coefficients only constrains the XOR of all rows", where(b, bi),
+                            key="R4.c|%s|%s" % (b.owner.rsplit("::", 1)[-1], tl))
+                    break
+    res.count("replicating_vector_constructions", n)
+    if not bad:
+        res.ok("R4.c", "engine", "", "%d vec![x; n] / repeat constructions with a non-constant element: none replicates a random draw" % n)
+
+
 def rule_coins(S, res):
     """R4: draws from the shared (public-coin) ChaCha20 generators."""
     fg = S.fg
